@@ -677,6 +677,36 @@ func genKflEval(r *Rand, tier string, emit func(sx.Sx)) {
 			}
 		}
 	}
+	// coherence block 2: two array results compared (every operator, both orders), with and
+	// without a shared boundary value; an array against a scalar equal to one of its elements
+	{
+		ident := func(p string) node { return callNode(p, sx.A("noparams"), sx.A("nosel"), p) }
+		obj := func(kv ...sx.Sx) sx.Sx { return sx.L(append([]sx.Sx{sx.A("o")}, pairs(kv)...)...) }
+		ints := func(xs ...int64) sx.Sx {
+			var out []sx.Sx
+			for _, x := range xs {
+				out = append(out, sInt(x))
+			}
+			return sArr(out...)
+		}
+		arrays := [][2]sx.Sx{{ints(2, 3), ints(1, 2)}, {ints(5, 5), ints(5, 5)}, {ints(1, 2, 3), ints(3, 4)}, {ints(4, 6), ints(1, 2)},
+			{ints(2), ints(2)}, {ints(1, 2), ints(2, 3)}, {ints(7, 8), ints(7)}}
+		for _, ab := range arrays {
+			for _, op := range []string{"==", "!=", ">=", "<=", ">", "<"} {
+				for _, order := range [][2]string{{"c.*", "e.*"}, {"e.*", "c.*"}} {
+					l, rr := ident(order[0]), ident(order[1])
+					var q node
+					if op == "==" || op == "!=" {
+						q = node{l.text + " " + op + " " + rr.text, sx.L(sx.A("Q"), wrapC(wrapU(l)).ast, sx.A(op), wrapQ(wrapC(wrapU(rr))).ast)}
+					} else {
+						q = wrapQ(node{l.text + " " + op + " " + rr.text, sx.L(sx.A("C"), wrapU(l).ast, sx.A(op), wrapC(wrapU(rr)).ast)})
+					}
+					e := wrapE(wrapL(q))
+					emit(sx.L(sx.S(e.text), e.ast, obj(sx.S("c"), ab[0], sx.S("e"), ab[1])))
+				}
+			}
+		}
+	}
 	for i := 0; i < count; i++ {
 		e := g.expr(2)
 		g.pref = kflNumRe.FindAllString(e.text, -1)
@@ -723,6 +753,13 @@ func genKflFuzz(r *Rand, tier string, emit func(sx.Sx)) {
 		"http and redis and http2", "a == 1e999", "a == 0x10", "a == 1_000", "a == .5.5", "\x00", "\xff\xfe", "日本語 == \"日本語\"", "a == \"\\\"\""}
 	for _, f := range fixed {
 		emitQ(f)
+	}
+	// macro names inside literals of growing length (expansion must terminate, in linear time)
+	for _, n := range []int{10, 20, 26, 40, 120} {
+		tail := strings.Repeat("client library build x", n/22+1)[:n]
+		emitQ("b == \"http " + tail + "\"")
+		emitQ("b.startsWith(\"redis://" + tail + "\")")
+		emitQ("http and a == 5 and b.startsWith(\"" + tail)
 	}
 	// every helper with 0..3 arguments of every kind, as function and as method
 	helpers := []string{"startsWith", "endsWith", "contains", "datetime", "limit", "json", "xml", "redact", "now", "seconds", "minutes", "hours", "days", "weeks", "months", "years", "nosuch"}
@@ -790,11 +827,23 @@ func genKflRedact(r *Rand, tier string, emit func(sx.Sx)) {
 	}
 	for i := 0; i < count; i++ {
 		n := 0
-		sent := func() sx.Sx { n++; return sStr(fmt.Sprintf("S%d", n)) }
+		sent := func() sx.Sx {
+			n++
+			switch {
+			case r.Chance(8):
+				return sx.A("null") // a null leaf is a value to redact like any other
+			case r.Chance(3):
+				return sInt(int64(1000 + n))
+			}
+			return sStr(fmt.Sprintf("S%d", n))
+		}
 		// nested documents
 		inner := fmt.Sprintf(`{"z":"S9%d","w":[1,2]}`, i%7)
 		innerJ, _ := oj.Marshal(inner)
 		nested := fmt.Sprintf(`{"k":["S7%d","S8%d"],"m":{"x":"S6%d","y":5},"inner":%s}`, i%5, i%3, i%4, innerJ)
+		if i%6 == 0 {
+			nested = fmt.Sprintf(`{"k":[null,"S8%d"],"m":{"x":null,"y":5},"inner":%s}`, i%3, innerJ)
+		}
 		fields := []sx.Sx{}
 		add := func(k string, v sx.Sx) {
 			if r.Chance(88) {
